@@ -215,6 +215,7 @@ class Analysis:
         self.entry_rel = entry_rel or []      # [(arg local | None, arg local | None, c)]: x - y <= c at entry (None = 0); from a caller's state
         self.assume = assume or {}      # argument local (or "upvar:<name>" of a closure) -> constant value assumed at entry (bounded instantiation)
         self.is_closure = bool(facts is not None and facts.heads.get(body.path, {}).get("bkind") == "closure")
+        self.param_views = {}
         self.engine = engine
         self.inv = invariants or {}
         self.b = body
@@ -230,6 +231,7 @@ class Analysis:
         self.mutborrow = {}      # temp local -> resolved place
         self.own_effects = program.effects(body.path) if program is not None else {}
         self._ndefs = {l: len(d) for l, d in body.defs().items()}
+        self.param_views = self._param_byte_views()
         self._prepass()
         self.state_in = {}
         self.state_at_term = {}
@@ -352,6 +354,10 @@ class Analysis:
                 # operand is itself a place holding a reference (`(*self).text` of type &str): the container is its deref
                 return {"l": p["l"], "p": list(place_proj(p)) + [["*"]]}
             l = p["l"]
+            if 1 <= l <= b.nargs and l in self.param_views:
+                # a `&[u8]` parameter that every caller fills with `<the &str parameter>.as_bytes()`: a view of that parameter
+                cur = {"c": {"l": self.param_views[l]}}
+                continue
             named = (1 <= l <= b.nargs) or b.local_name(l)
             if named and not (1 <= l <= b.nargs) and self._ndefs.get(l, 0) == 1:
                 # `let bytes = s.as_bytes();`: a view of s with the same length, alive only while s is borrowed
@@ -373,6 +379,8 @@ class Analysis:
                                 if q2 in DEREF_FNS and r2["t"]["args"]:
                                     cur = r2["t"]["args"][0]
                                     continue
+                        if len(pj) == 1 and pj[0][0] == "*" and pp["l"] in self.param_views:
+                            return {"l": self.param_views[pp["l"]], "p": [["*"]]}      # `&*bytes` of a byte-view parameter
                         return pp
                     if rv["k"] in ("use", "cast"):
                         cur = rv["o"]
@@ -475,6 +483,97 @@ class Analysis:
                 self.untracked.add(p["l"])
         self.mutborrow = alias
         self.pos_sums = self._find_position_sums()
+
+    def _param_byte_views(self):
+        """{bytes parameter: str parameter} for a private function all of whose call sites pass `x.as_bytes()` for the former
+        and `x` for the latter (a helper that receives a string together with its byte view)."""
+        b, F, P = self.b, self.F, self.P
+        out = {}
+        h = F.heads.get(b.path, {}) if F is not None else {}
+        if P is None or h.get("vis") in ("pub",) or h.get("bkind") != "fn":
+            return out
+        cand = [l for l in range(1, b.nargs + 1) if b.locals[l].replace(" ", "") in ("&[u8]",)]
+        strs = [l for l in range(1, b.nargs + 1) if b.locals[l] in ("&str", "&std::string::String")]
+        if not cand or not strs:
+            return out
+        callers = P.callers_of([b.path])
+        if not callers:
+            return out
+
+        def root(cb, o):
+            pl = op_place(o)
+            for _ in range(8):
+                if pl is None or place_proj(pl):
+                    return None
+                l = pl["l"]
+                if cb.local_name(l) or 1 <= l <= cb.nargs:
+                    return l
+                ds = cb.defs().get(l, [])
+                if len(ds) != 1:
+                    return None
+                if ds[0][1] == "t":
+                    t = cb.blocks[ds[0][0]]["t"]
+                    q = (cb.callee_q(t) or "").rsplit("::", 1)[-1]
+                    if q in DEREF_FNS and t["args"]:
+                        pl = op_place(t["args"][0])
+                        continue
+                    return None
+                rv = cb.blocks[ds[0][0]]["s"][ds[0][1]]["rv"]
+                if rv["k"] in ("use", "cast"):
+                    pl = op_place(rv["o"])
+                elif rv["k"] == "ref":
+                    pl = {"l": rv["p"]["l"], "p": [e for e in place_proj(rv["p"]) if e[0] != "*"]}
+                else:
+                    return None
+            return None
+
+        def via_as_bytes(cb, o):
+            pl = op_place(o)
+            for _ in range(6):
+                if pl is None or place_proj(pl):
+                    return None
+                l = pl["l"]
+                ds = cb.defs().get(l, [])
+                if len(ds) != 1:
+                    return None
+                if ds[0][1] == "t":
+                    t = cb.blocks[ds[0][0]]["t"]
+                    if (cb.callee_q(t) or "").rsplit("::", 1)[-1] == "as_bytes" and t["args"]:
+                        return root(cb, t["args"][0])
+                    return None
+                rv = cb.blocks[ds[0][0]]["s"][ds[0][1]]["rv"]
+                if rv["k"] in ("use", "cast"):
+                    pl = op_place(rv["o"])
+                elif rv["k"] == "ref" and all(e[0] == "*" for e in place_proj(rv["p"])):
+                    pl = {"l": rv["p"]["l"]}        # a reborrow `&*bytes`
+                else:
+                    return None
+            return None
+        for lb in cand:
+            for ls in strs:
+                ok = True
+                n = 0
+                for c in callers:
+                    if not F.has(c):
+                        ok = False
+                        break
+                    cb = F.body(c)
+                    for bi, t in cb.calls():
+                        if cb.callee(t) != b.path:
+                            continue
+                        n += 1
+                        if len(t["args"]) < max(lb, ls):
+                            ok = False
+                            break
+                        rb, rs_ = via_as_bytes(cb, t["args"][lb - 1]), root(cb, t["args"][ls - 1])
+                        if rb is None or rs_ is None or rb != rs_:
+                            ok = False
+                            break
+                    if not ok:
+                        break
+                if ok and n:
+                    out[lb] = ls
+        return out
 
     def call_entry_relations(self, bi):
         """[(i, j, c)] over the callee's parameter locals (1-based; None = the constant 0): what the state before the call
